@@ -271,6 +271,7 @@ func vspecUvK(b []byte) int {
 //@   ensures result == Type(h.mtypeflags[0] >> 4)
 
 //@ func (*header).Name
+//@   flag bodyhash 86c62385bbed
 //@   trusted
 //@   pure
 //@   requires len(h.mtypeflags) == 1
@@ -873,6 +874,7 @@ func vspecCFUsername(f byte) bool   { return (f>>7)&1 == 1 }
 
 // The client-id syntax check is a regular-expression match; its result is left unspecified.
 //@ func (*ConnectMessage).validClientID
+//@   flag bodyhash e8e2ef262b7f
 //@   trusted
 //@   pure
 
@@ -1138,6 +1140,7 @@ func vspecCWM(src []byte) int { return vspecCW(src) + 2 + vspecBE16(src, vspecCW
 //@   ensures vspecCFClean(m.connectFlags) == v && m.dirty && vspecCFWill(m.connectFlags) == old(vspecCFWill(m.connectFlags))
 //@   modifies m.connectFlags, m.dirty
 //@ func (*ConnectMessage).SetClientID
+//@   flag bodyhash 0025a7bc8fb6
 //@   trusted
 //@   results err
 //@   ensures err == nil ==> sameslice(m.clientID, v) && m.dirty
